@@ -1630,12 +1630,22 @@ class TeX(object):
             elif t in string.digits:
                 num = number(sign * int(t + self.readSequence(string.digits,
                                                               optspace=optspace)))
-                for t in self:
-                    if t.nodeType == Macro.ELEMENT_NODE and \
-                       isinstance(t, ParameterCommand):
+                # A register directly after the constant multiplies it.
+                # Look at the next token without expanding it: whatever
+                # follows the number must not run before the number is used
+                context = self.ownerDocument.context
+                for t in self.itertokens():
+                    if t.nodeType == Macro.ELEMENT_NODE:
+                        if isinstance(t, ParameterCommand):
+                            num = number(num * number(t))
+                            break
+                    elif t.catcode == Token.CC_ESCAPE and \
+                         t.macroName in context and \
+                         issubclass(context[t.macroName], ParameterCommand):
+                        t = self.ownerDocument.createElement(t.macroName)
                         num = number(num * number(t))
-                    else:
-                        self.pushToken(t)
+                        break
+                    self.pushToken(t)
                     break
             # octal constant
             elif t == "'":
